@@ -41,6 +41,7 @@ fn main() {
         "C12" => (ex, Box::new(|r| checks::amf0::run_c12(r))),
         "C13" => (ex, Box::new(|r| checks::c13::run(r))),
         "C16" => (mc, Box::new(|r| checks::c16::run(r))),
+        "C17" => (mc, Box::new(|r| checks::c17::run(r))),
         "C20" => (ex, Box::new(|r| checks::c20::run(r))),
         _ => usage(),
     };
